@@ -1,4 +1,5 @@
 """Property-specific side engines, witness search (decoration only) and replay."""
+import time
 import re, json, os, subprocess, sys
 
 from . import gen
@@ -59,8 +60,87 @@ def strip_noncode(text):
     return text
 
 
+KANI_FLOAT = ["nan_threshold_hides_nothing", "nonpositive_threshold_hides_nothing", "raising_the_threshold_is_monotone", "value_at_threshold_is_not_small", "reachability"]
+KANI_FLOAT_TEXT = {
+    "nan_threshold_hides_nothing": "forall v: f64. !(v < NaN): a NaN threshold rewrites everything",
+    "nonpositive_threshold_hides_nothing": "forall v >= 0, t <= 0. !(v < t): a threshold of zero or below rewrites everything",
+    "raising_the_threshold_is_monotone": "forall v, t1 <= t2. v < t1 ==> v < t2: raising the threshold never adds a rewrite",
+    "value_at_threshold_is_not_small": "forall v. !(v < v): small means strictly below the threshold",
+    "reachability": "vacuity guard: the assumptions of the lemmas are satisfiable (kani::cover)",
+}
+
+
+def kani_float_lemmas():
+    """C09: complete (loop-free, full-domain f64) Kani proofs about the comparison expression of the scanner. Cached by the hash of
+    the generated harness file."""
+    import hashlib
+    unit = gen.load_unit("scan")
+    expr = None
+    for src in unit["sources"]:
+        for h in src.get("expr_hoists", []):
+            if h["name"] == "vx_below_threshold":
+                expr = h["text"].strip()
+    out = []
+    if expr is None:
+        return [{"id": "kani::float::" + k, "fn": "FindNumbers::number_end", "kind": "kani-lemma", "props": ["C09"], "unit": "kanifl", "src": "kanifl/lib.rs.tmpl",
+                 "text": KANI_FLOAT_TEXT[k], "status": "undecided", "diag": [{"msg": "overlay no longer names the comparison expression (lost anchor)"}]} for k in KANI_FLOAT], ""
+    text = open(os.path.join(VERIF, "kanifl", "lib.rs.tmpl"), encoding="utf-8").read().replace("@EXPR@", expr)
+    key = hashlib.sha256(text.encode()).hexdigest()
+    cdir = os.path.join(VERIF, "build", "cache")
+    os.makedirs(cdir, exist_ok=True)
+    cf = os.path.join(cdir, "kanifl_" + key + ".json")
+    if os.path.exists(cf) and not os.environ.get("VERIF_NOCACHE"):
+        res = json.load(open(cf))
+    else:
+        import shutil, tempfile
+        wd = os.path.join(VERIF, "build", "kanifl")
+        shutil.rmtree(wd, ignore_errors=True)
+        os.makedirs(os.path.join(wd, "src"))
+        shutil.copy(os.path.join(VERIF, "kanifl", "Cargo.toml"), os.path.join(wd, "Cargo.toml"))
+        open(os.path.join(wd, "src", "lib.rs"), "w", encoding="utf-8").write(text)
+        env = dict(os.environ, CARGO_NET_OFFLINE="true", CARGO_TARGET_DIR=os.path.join(VERIF, "build", "kanifl-target"))
+        t0 = time.time()
+        try:
+            p = subprocess.run(["cargo", "kani"], cwd=wd, env=env, capture_output=True, text=True, timeout=900)
+            outp = p.stdout + "\n" + p.stderr
+        except Exception as e:
+            outp = "kani could not be run: %r" % (e,)
+        res = {"wall_s": round(time.time() - t0, 1), "harness": {}}
+        # per-harness verdict: "Checking harness proofs::<name>..." ... "VERIFICATION:- SUCCESSFUL|FAILED"
+        for m in re.finditer(r"Checking harness proofs::(\w+)\.\.\.(.*?)VERIFICATION:- (\w+)", outp, re.S):
+            body = m.group(2)
+            res["harness"][m.group(1)] = {"verdict": m.group(3), "covers_satisfied": len(re.findall(r"Status: SATISFIED", body)),
+                                           "covers_total": len(re.findall(r"cover\.\d+", body)), "tail": body[-400:]}
+        if len(res["harness"]) == len(KANI_FLOAT):
+            json.dump(res, open(cf, "w"))
+        else:
+            res["error"] = outp[-800:]
+    for k in KANI_FLOAT:
+        h = res["harness"].get(k)
+        o = {"id": "kani::float::" + k, "fn": "FindNumbers::number_end (comparison `%s`)" % expr, "kind": "kani-lemma", "props": ["C09"], "unit": "kanifl",
+             "src": "kanifl/lib.rs.tmpl", "text": KANI_FLOAT_TEXT[k], "status": "discharged"}
+        if h is None:
+            o["status"] = "undecided"
+            o["diag"] = [{"msg": "no verdict from Kani: " + res.get("error", "")[-300:]}]
+        elif h["verdict"] != "SUCCESSFUL":
+            o["status"] = "failed"
+            o["diag"] = [{"msg": "Kani: " + h["tail"][-300:], "rendered": h["tail"][-300:]}]
+        elif k == "reachability" and h["covers_satisfied"] < 2:
+            o["status"] = "undecided"
+            o["diag"] = [{"msg": "vacuity guard: a cover is not satisfiable"}]
+        out.append(o)
+    return out, "cargo kani (in build/kanifl: kanifl/lib.rs.tmpl with the scanner's comparison `%s` substituted; %s s%s)" % (expr, res.get("wall_s"), "" if not os.path.exists(cf) else ", result cached by harness hash")
+
+
 def side_checks(pid, tier, seed):
     out = {"obligations": [], "cmd": "", "trusted": [], "engine": "", "bounded": []}
+    if pid == "C09":
+        obl, cmd = kani_float_lemmas()
+        out["obligations"] = obl
+        out["cmd"] = cmd
+        out["engine"] = "Kani 0.68 / CBMC 6.11 (loop-free harnesses over full-domain symbolic f64: complete float lemmas)"
+        out["trusted"] = ["Kani/CBMC's IEEE-754 model of f64 comparison", "values of numerals are non-negative (the digit strings this crate parses carry no sign)"]
+        return out
     if pid != "C14":
         return out
     # (1) frame condition, syntactic: the code on the call path owns no interior-mutable / global state and has no unsafe block
